@@ -27,7 +27,25 @@ RULE = ("generated multi-document Sphinx projects (directory depth 0-3, .md and 
         "generator knows which page/section/label/file each link is meant to reach) vs the href, link text and warnings of "
         "the WRITTEN HTML pages. non-trivial = link whose source or target lies below the root directory, or has an anchor, or "
         "is missing; distinct by (source dir depth, target dir depth, spelling, scheme, text form, intent kind, included)")
-TRUSTED = ["coq/XRef/Path.v, coq/XRef/XRefModel.v are hand transcriptions of posixpath/pathlib/Sphinx path functions and of "
+TRUSTED = ["source translation gen/c12_src.py -> coq/Gen/C12Src.v (statement-by-statement; fail-closed). Trusted mapping of "
+           "Python idioms to Gallina (vocabulary in coq/XRef/XRefSrcBase.v): token.attrGet('href') or '' -> l_dest; "
+           "cast/str/Path/md.normalizeLinkText -> identity; s.startswith(p) -> startswith; s[n:] -> skipn n; "
+           "a, *b = s.split('#', maxsplit=1) + b[0] if b else None -> before/after '#'; 'x' in s -> contains; s.lower() -> lower; "
+           "sphinx_env.srcdir -> true; sphinx_env.docname -> d_name; token.info/children -> l_auto/l_children; "
+           "md_env.get('relative-docs') -> l_include, relative_include[1:] -> (dir of the document, include dir); "
+           "os.path.relpath/join/normpath, docname_join, sphinx_env.path2doc -> the modelled functions; _abs_path's "
+           "try relfn2path except ValueError -> has_nul test; _is_file / os.access(R_OK) -> is_file / is_readable; x in "
+           "env.all_docs|found_docs -> in_docs; env.metadata[d].get('myst_slugs') -> slugs_of, slug_to_section[k] -> slug_id/"
+           "slug_title; clean_astext(env.titles[d]) -> title_of; stddomain.anonlabels/labels.get -> anon_*/lab_*; REGEX_SCHEME."
+           "match + group(1) -> scheme_of; x in md_config.url_schemes -> mem_str (p_url_schemes); md_config.all_links_external -> "
+           "p_all_external, commonmark_only/gfm_only -> false, 'class' in token.attrs -> false; pending_xref(refdomain='doc'|None)/"
+           "download_reference -> N_doc/N_any/N_dl, _process_wrap_node -> finish; create_warning(f'..{x}..', XREF_MISSING) followed by "
+           "render_link_url -> C_nofile x; render_link_url/anchor/inventory -> C_url/C_anchor/C_inv; nodes.inline(c, '')+extend(node[0]."
+           "children) -> X_children, inline(t, t) -> X_str, literal(t, t) -> X_lit, node[0].deepcopy() -> inner_of explicit; "
+           "make_refnode(builder, a, b, c, n) -> (make_refnode a b c, n), try .. except NoUri ignored (html builders); log_warning(t, .., "
+           "XREF_MISSING) -> log_missing t; node.replace_self(x) -> the outcome; the 'std' object-type loop and the domains loop of "
+           "resolve_myst_ref_any -> the oracles std_objects / other_domains (order checked)",
+           "coq/XRef/Path.v, coq/XRef/XRefModel.v are hand transcriptions of posixpath/pathlib/Sphinx path functions and of "
            "render_link*/_handle_relative_docs/ResolveAnchorIds/MystReferenceResolver (checked by correspondence, not proved)",
            "Sphinx 8.2 environment, html/dirhtml builders and writer (pages, _downloads copies) as oracles",
            "generated names: ASCII [A-Za-z0-9._-] plus NFC non-ASCII letters and a space; observed URIs are compared after "
@@ -50,8 +68,12 @@ ORACLES = {
     "O_include": "MockIncludeDirective sets md_env['relative-docs'] = (prefix, dir of the including source, dir of the included "
                  "file): exercised by every link of a generated fragment",
 }
-ASSUMPTIONS = ["default MyST configuration except myst_heading_anchors=3 (all_links_external etc. off; url_schemes default)",
-               "one level of {include} (a fragment including another fragment is not generated)",
+ASSUMPTIONS = ["configuration: myst_heading_anchors=3; axis generated and modelled: myst_all_links_external, myst_url_schemes (extra "
+               "schemes, also 'project'), myst_ref_domains; commonmark_only / gfm_only off. Reading: the property speaks about MyST's "
+               "link resolution - under all_links_external, and for a scheme the user lists in url_schemes, links are external URLs "
+               "by configuration and the search makes no claim (the model still predicts them); ref_domains does not change labels/"
+               "documents",
+               "{include} up to two levels (a fragment including a fragment, with or without its own :relative-docs:)",
                "single-process builds; scratch directory without symbolic links"]
 
 ANSI = re.compile(r"\x1b\[[0-9;]*m")
@@ -60,7 +82,7 @@ BUILTIN_LABELS = [("genindex", "genindex", "", "Index"), ("modindex", "py-modind
 URL_SCHEMES = ["http", "https", "mailto", "ftp"]
 SUFFIXES = [".rst", ".md"]
 CONF = ("extensions = ['myst_parser']\nexclude_patterns = ['_build']\nhtml_theme = 'basic'\n"
-        "myst_heading_anchors = 3\nhtml_copy_source = False\nhtml_use_index = False\n")
+        "myst_heading_anchors = 3\nhtml_copy_source = False\nhtml_use_index = False\nsmartquotes = False\n")
 
 
 def gen(ctx):
